@@ -80,6 +80,59 @@ decreasing_by all_goals simp_wf <;> omega
 /-- `sprintTxtOctet` (types.go) -/
 def sprintTxtOctet (s : Bytes) : Bytes := [34] ++ octetRe s ++ [34]
 
+/-! #### numbers in groups of hex digits -/
+
+def hexChar (upper : Bool) (n : Nat) : Byte :=
+  if n < 10 then UInt8.ofNat (48 + n) else UInt8.ofNat ((if upper then 55 else 87) + n)
+
+/-- `fmt.Sprintf("%0<n>x", v)` for a value of at most `n` hex digits: exactly `n` digits, most significant first -/
+def hexFixed (upper : Bool) : (n : Nat) → Nat → Bytes
+  | 0, _ => []
+  | n + 1, v => hexChar upper (v / 16 ^ n % 16) :: hexFixed upper n v
+
+def groupsOf (g : Nat) : (fuel : Nat) → Bytes → List Bytes
+  | 0, _ => []
+  | f + 1, s => if s.length ≤ g ∨ g = 0 then [s] else s.take g :: groupsOf g f (s.drop g)
+
+def joinWith (sep : Byte) : List Bytes → Bytes
+  | [] => []
+  | [w] => w
+  | w :: rest => w ++ sep :: joinWith sep rest
+
+def printHexGroups (digits group sep : Nat) (upper : Bool) (v : Nat) : Bytes :=
+  joinWith (UInt8.ofNat sep) (groupsOf group (digits + 1) (hexFixed upper digits v))
+
+def hexDigitVal (c : Byte) : Option Nat :=
+  if 48 ≤ c.toNat ∧ c.toNat ≤ 57 then some (c.toNat - 48)
+  else if 97 ≤ c.toNat ∧ c.toNat ≤ 102 then some (c.toNat - 87)
+  else if 65 ≤ c.toNat ∧ c.toNat ≤ 70 then some (c.toNat - 55)
+  else none
+
+def hexStep (acc : Option Nat) (c : Byte) : Option Nat :=
+  match acc, hexDigitVal c with
+  | some a, some d => some (a * 16 + d)
+  | _, _ => none
+
+/-- `strconv.ParseUint(s, 16, bits)`: hex digits only, at least one, the value below 2^bits -/
+def parseHexN (bits : Nat) (s : Bytes) : Option Nat :=
+  if s.isEmpty then none
+  else match s.foldl hexStep (some 0) with
+    | some v => if v < 2 ^ bits then some v else none
+    | none => none
+
+/-- `(*EUI48).parse` (6 groups) / `(*EUI64).parse` (8 groups) on the token: the length, the dashes behind all groups but
+    the last, the digits as one hexadecimal number -/
+def euiParse (groups : Nat) (tok : Bytes) : Option Nat :=
+  if tok.length ≠ 3 * groups - 1 then none
+  else if !((List.range (groups - 1)).all (fun i => tok[3 * i + 2]? == some 45)) then none
+  else parseHexN (8 * groups) ((List.range groups).flatMap (fun i => (tok.drop (3 * i)).take 2))
+
+/-- `stringToNodeID` -/
+def nodeIdParse (tok : Bytes) : Option Nat :=
+  if tok.length < 19 then none
+  else if tok[4]? != some 58 && tok[9]? != some 58 && tok[14]? != some 58 then none
+  else parseHexN 64 ((tok.drop 0).take 4 ++ (tok.drop 5).take 4 ++ (tok.drop 10).take 4 ++ (tok.drop 15).take 4)
+
 /-- one leaf of a `String()` expression -/
 def printStep : TStep → List TVal → Option (Bytes × List TVal)
   | .uint _, .n v :: vs => some (itoa v, vs)
@@ -88,6 +141,7 @@ def printStep : TStep → List TVal → Option (Bytes × List TVal)
   | .txt, .ss strs :: vs => some (sprintTxt strs, vs)
   | .txtPair, .s a :: .s b :: vs => some (sprintTxt [a, b], vs)
   | .txtFirst, .s a :: vs => some (sprintTxt [a], vs)
+  | .hexGroups d g sep up, .n v :: vs => some (printHexGroups d g sep up v, vs)
   | .octet, .s a :: vs => some (sprintTxtOctet a, vs)
   | .blank, vs => some ([32], vs)
   | .slurp, vs => some ([], vs)
@@ -214,11 +268,24 @@ def parsePlan (origin : Bytes) : List TStep → List Tok → List TVal → Optio
   | .txtPair :: _, ts, acc => (TxtParse.endingToTxtSlice ts).map (fun ss => acc ++ [.s (pairOfChunks ss).1, .s (pairOfChunks ss).2])
   | .txtFirst :: _, ts, acc => (TxtParse.endingToTxtSlice ts).map (fun ss => acc ++ [.s (ss.headD [])])
   | .octet :: _, ts, acc => (endingToOctet ts).map (fun s => acc ++ [.s s])
+  | .euiTok groups :: rest, ts, acc =>
+    let l := headTok ts
+    if l.err then none
+    else match euiParse groups l.token with
+      | some v => parsePlan origin rest ts.tail (acc ++ [.n v])
+      | none => none
+  | .nodeId :: rest, ts, acc =>
+    let l := headTok ts
+    if l.err then none
+    else match nodeIdParse l.token with
+      | some v => parsePlan origin rest ts.tail (acc ++ [.n v])
+      | none => none
   | .tokStr :: rest, ts, acc =>
     let l := headTok ts
     if l.err ∨ l.value ≠ zString then none else parsePlan origin rest ts.tail (acc ++ [.s l.token])
   | .slurp :: _, ts, acc => if slurpRemainder ts then some acc else none
   | .other :: _, _, _ => none
+  | .hexGroups _ _ _ _ :: _, _, _ => none      -- a printer's step
 
 /-! ### type and class mnemonics (defaults.go `Type.String`, `Class.String`) -/
 
